@@ -1,26 +1,32 @@
-//! C06 / C34 / C07: BOUNDED Kani stand-ins for what unit `journal` (Verus) ASSUMES about journaled_state.rs:
-//!   * the driver of `JournaledState::checkpoint_revert` (contract `revert_post` in contracts/journal.vc):
-//!     `iter_mut().rev().take(n).for_each(closure capturing &mut ..)`, `logs.truncate`, `journal.truncate`, `depth -= 1`;
-//!   * `JournaledState::initial_account_load` (generic `impl IntoIterator` loop);
-//!   * the early returns of `create_account_checkpoint` through `checkpoint_revert` (depth / journal pairing, C07).
+//! C06: BOUNDED Kani stand-in for what unit `journal` (Verus) ASSUMES about `JournaledState::checkpoint_revert`
+//! (contract `revert_post` in contracts/journal.vc): the DRIVER
+//! `journal.iter_mut().rev().take(leng - journal_i).for_each(|cs| journal_revert(state, transient, mem::take(cs), flag))`,
+//! `logs.truncate(log_i)`, `journal.truncate(journal_i)`, `depth -= 1`
+//! -- an iterator-adapter chain whose closure captures `&mut`, outside Verus.  The file under test is the REAL
+//! crates/revm/src/journaled_state.rs, compiled in place (see lib.rs).
 //!
-//! Cost notes (measured, see mutations/C06/README.md):
-//!   * std's `RandomState::new()` takes its SipHash keys from the OS (a foreign call Kani cannot model): every harness
-//!     stubs it with FIXED keys (0, 0).  With symbolic keys even `checkpoint(); inc_nonce(a); checkpoint_revert(cp)` on a
-//!     one-account state does not finish in 15 minutes.
-//!   * symbolic execution cannot resolve hashbrown's probe loops nor the discriminant of a journal entry read back from
-//!     the heap, so the REAL `journal_revert` costs ~12 table lookups per entry plus the drop glue of `Option<Bytecode>`
-//!     (`CodeChange` arm).  The driver harnesses therefore replace the PRIVATE `journal_revert` -- which unit `journal`
-//!     PROVES against `undo_all`, every arm -- by a recorder (`kani::stub`) and check the driver's CALL PROTOCOL:
-//!     exactly what `revert_post` assumes beyond the proved `journal_revert` contract (lemma_undo_levels: undoing the
-//!     levels journal[journal_i..] last level first IS undo_all of their concatenation).
+//! What is checked: the driver's CALL PROTOCOL and bookkeeping.  The PRIVATE `journal_revert` -- PROVED in unit `journal`
+//! against `undo_all`, every arm -- is replaced (`kani::stub`) by a recorder; the harness then asserts exactly what
+//! `revert_post` assumes beyond that proved contract: journal_revert is called once per level of journal[journal_i..],
+//! LAST LEVEL FIRST, with that level's entries and the EIP-161 flag of `spec` (lemma_undo_levels: that IS undo_all of
+//! the concatenation), the journal and the logs are cut back to the checkpoint, depth decreases by one, nothing else moves.
+//!
+//! What could NOT be done with Kani here (measured; details in mutations/C06/README.md):
+//!   * anything that touches the real `state: HashMap<Address, Account>`: a std HashMap is an untyped hashbrown table,
+//!     every access to a 200-byte `Account` in it is a symbolic-offset access.  `create_account_checkpoint`'s collision
+//!     exit on a ONE-account state: no verdict in 15 min; two inserts: symbolic execution alone > 15 min (after the first
+//!     insert `growth_left` is no constant any more and CBMC explores the whole rehash machinery).  Hence no harness for
+//!     `initial_account_load`, for `create_account_checkpoint`, nor end to end through the real `journal_revert`.
+//!   * `HashMap::get_mut` cannot be stubbed by a stand-in (Kani's signature check distinguishes named from elided
+//!     lifetimes; a free function cannot have the elided form).
+//!
+//! Three constructions that make the harnesses affordable (each one measured):
+//!   * std's `RandomState::new()` draws its SipHash keys from the OS (a foreign call): stubbed with fixed keys;
+//!   * `journal` / `logs` live in buffers that come from a `vec![..]` literal (see `new_journaled_state`);
+//!   * shapes are concrete, one per harness (symbolic Vec lengths: > 12 GB); payloads and the fork are symbolic.
 #![allow(static_mut_refs)]
 use crate::journaled_state::{JournalCheckpoint, JournalEntry, JournaledState};
-use crate::interpreter::InstructionResult;
-use crate::primitives::{
-    db::Database, hash_map::Entry, Account, AccountInfo, AccountStatus, Address, Bytecode, Bytes, EvmState, EvmStorageSlot, HashMap,
-    HashSet, Log, LogData, SpecId, TransientStorage, B256, KECCAK_EMPTY, U256,
-};
+use crate::primitives::{Address, Bytes, EvmState, HashSet, Log, LogData, SpecId, TransientStorage, U256};
 use std::collections::hash_map::RandomState;
 
 // ------------------------------------------------------------------------------------------------ stubs
@@ -29,18 +35,20 @@ fn fixed_random_state() -> RandomState {
     unsafe { core::mem::transmute::<[u64; 2], RandomState>([0u64, 0u64]) }
 }
 
-/// `bytes::Bytes::drop` calls through the function pointer `vtable.drop`; CBMC has to consider every candidate (shared /
-/// promotable / owned buffers, atomics, `free` of an unknown pointer): dropping ONE empty `Log` costs gigabytes.  The logs
-/// used here carry `Bytes::new()` (static, nothing to free): dropping them is a no-op in the real code as well.
+/// `bytes::Bytes::drop` calls through the function pointer `vtable.drop`, which CBMC resolves against every candidate
+/// (shared / promotable / owned buffers: atomics, `free`).  `logs.truncate` drops `Log`s; the logs used here carry
+/// `Bytes::new()` (static vtable, nothing to free), for which the real drop is a no-op as well.  (A precaution taken while
+/// hunting a memory blow-up whose cause turned out to be the untyped-buffer problem described at `new_journaled_state`;
+/// its own cost was not measured in isolation.)
 fn bytes_drop_noop(_b: &mut bytes::Bytes) {}
 
 /// Recorder standing in for the private `JournaledState::journal_revert(state, transient, entries, is_spurious_dragon)`.
 /// It touches neither the state nor the transient storage and keeps, per call and in call order: the number of entries,
 /// the flag, WHICH level's buffer it was handed (the driver moves each level out with `mem::take`, so the buffer address
 /// identifies the level; the harness registers the addresses in LEVEL_PTR before the revert) and the tags of the entries
-/// found there at the moment of the call.  The entries are read through the harness's own registered pointer: reading
-/// through the Vec the driver passes costs > 10 GB (its data pointer was loaded from `journal` at an offset that
-/// symbolic execution cannot resolve, so CBMC dereferences it against every object).
+/// found there at the moment of the call.  The entries are read through the harness's own registered pointer (an object
+/// symbolic execution knows), not through the Vec the driver passes (its data pointer was loaded from `journal` at an
+/// offset symbolic execution cannot resolve: the loop runs `take(n)` with `n` read back from memory).
 const MAX_CALLS: usize = 5;
 const NO_LEVEL: usize = usize::MAX;
 static mut LEVEL_PTR: [*const JournalEntry; ML] = [core::ptr::null(); ML];
@@ -73,13 +81,6 @@ fn recording_journal_revert(_state: &mut EvmState, _transient: &mut TransientSto
 }
 
 // ------------------------------------------------------------------------------------------------ helpers
-fn any_u256() -> U256 {
-    U256::from_limbs(kani::any())
-}
-fn limbs_eq(a: &U256, b: &U256) -> bool {
-    let (a, b) = (a.as_limbs(), b.as_limbs());
-    a[0] == b[0] && a[1] == b[1] && a[2] == b[2] && a[3] == b[3]
-}
 fn addr(id: u8) -> Address {
     Address::new([id; 20])
 }
@@ -165,16 +166,11 @@ fn new_journaled_state(spec: SpecId) -> JournaledState {
     let mut js = JournaledState::new(spec, HashSet::default());
     assert!(js.journal.len() == 1 && js.journal[0].is_empty() && js.logs.is_empty() && js.depth == 0);
     let mut j: Vec<Vec<JournalEntry>> = vec![vec![], vec![], vec![], vec![], vec![], vec![]];
-    j.truncate(1);
+    unsafe { j.set_len(1) }; // the five spare empty Vecs own nothing
     core::mem::forget(core::mem::replace(&mut js.journal, j));
     let mut lg: Vec<Log> = vec![log_of(0), log_of(0), log_of(0), log_of(0), log_of(0), log_of(0)];
     unsafe { lg.set_len(0) }; // the six placeholder logs own nothing (empty topics, static empty data)
     core::mem::forget(core::mem::replace(&mut js.logs, lg));
-    // the two maps: still EMPTY, but allocated up front (room for 7 entries).  A map that grows from the empty singleton
-    // goes through `resize` + a byte-wise `mem::swap` of the table header; afterwards `growth_left` is no constant any more
-    // and every later insert explores the whole rehash machinery (measured: two inserts, no verdict in 15 min).
-    core::mem::forget(core::mem::replace(&mut js.state, HashMap::with_capacity_and_hasher(4, fixed_random_state())));
-    core::mem::forget(core::mem::replace(&mut js.transient_storage, HashMap::with_capacity_and_hasher(4, fixed_random_state())));
     js
 }
 
@@ -309,127 +305,3 @@ driver_harness!(driver_empty_level, 8, [2], 2, 0, 0, NONE, false, 0);
 driver_harness!(driver_inner_open, 8, [1], 0, 1, 0, [(1, 1), (1, 0)], true, 0);
 // three levels below the checkpoint stay intact
 driver_harness!(driver_deep_outer, 8, [1, 2, 0], 2, 1, 2, [(1, 0)], false, 2);
-
-// ------------------------------------------------------------------------------------------------ real state
-const A: Address = Address::new([0xA1; 20]);
-const B: Address = Address::new([0xB2; 20]);
-const K1: U256 = U256::from_limbs([1, 0, 0, 0]);
-const K2: U256 = U256::from_limbs([2, 0, 0, 0]);
-
-/// insert through the entry API (the API the real load_account uses); no drop glue of `acc` on the impossible Occupied path
-fn put(js: &mut JournaledState, a: Address, acc: Account) {
-    match js.state.entry(a) {
-        Entry::Vacant(v) => {
-            v.insert(acc);
-        }
-        Entry::Occupied(_) => {
-            core::mem::forget(acc);
-            unreachable!()
-        }
-    }
-}
-fn status_of(touched: bool, cold: bool) -> AccountStatus {
-    let mut s = AccountStatus::Loaded;
-    if touched {
-        s |= AccountStatus::Touched;
-    }
-    if cold {
-        s |= AccountStatus::Cold;
-    }
-    s
-}
-/// an account without code and without storage: symbolic balance (below 2^255) and nonce
-fn plain_account(touched: bool, cold: bool) -> Account {
-    let mut limbs: [u64; 4] = kani::any();
-    limbs[3] &= 0x7FFF_FFFF_FFFF_FFFF;
-    Account {
-        info: AccountInfo { balance: U256::from_limbs(limbs), nonce: kani::any(), code_hash: KECCAK_EMPTY, code: None },
-        storage: HashMap::default(),
-        status: status_of(touched, cold),
-    }
-}
-
-// ------------------------------------------------------------------------------------------------ (3) create_account_checkpoint
-/// C07 / C21: the `CreateCollision` exit of `create_account_checkpoint` pairs its `checkpoint()`: depth, |journal|,
-/// |logs| are what they were, the level it opened is gone, the target account is untouched (balance, nonce, flags) and
-/// `journal_revert` saw nothing but the empty level.
-/// Bound: ONE account in the state (the target, concrete address, no code, empty storage, symbolic balance / nonce /
-/// touched flag), symbolic `address_has_storage`, inputs restricted to the collision case (nonce != 0 or has_storage) --
-/// the Ok path needs the caller in the state as well, and a second insert into a std HashMap makes CBMC explore the whole
-/// rehash machinery (no verdict in 15 min).  An outer frame is open (depth 1, one log).
-#[kani::proof]
-#[kani::unwind(5)]
-#[kani::stub(std::collections::hash_map::RandomState::new, fixed_random_state)]
-#[kani::stub(crate::journaled_state::JournaledState::journal_revert, recording_journal_revert)]
-#[kani::stub(<bytes::Bytes as core::ops::Drop>::drop, bytes_drop_noop)]
-fn create_collision_exit() {
-    let mut js = new_journaled_state(SpecId::CANCUN);
-    let touched0: bool = kani::any();
-    let target = plain_account(touched0, false);
-    let (tb0, tn0) = (target.info.balance, target.info.nonce);
-    put(&mut js, B, target);
-    let _outer = js.checkpoint();
-    js.log(log_of(9));
-    let (d0, j0, l0) = (js.depth, js.journal.len(), js.logs.len());
-    assert!(d0 == 1 && j0 == 2 && l0 == 1);
-
-    let has_storage: bool = kani::any();
-    kani::assume(tn0 != 0 || has_storage);
-    let value = any_u256();
-
-    let r = js.create_account_checkpoint(A, B, has_storage, value, SpecId::CANCUN);
-
-    kani::cover!(has_storage && tn0 == 0);
-    kani::cover!(!has_storage && tn0 == 7);
-    assert!(matches!(r, Err(InstructionResult::CreateCollision)));
-    assert!(js.depth == d0);
-    assert!(js.journal.len() == j0);
-    assert!(js.journal[0].is_empty() && js.journal[1].is_empty());
-    assert!(js.logs.len() == l0);
-    assert!(unsafe { REC_N } <= 1 && unsafe { REC_LEN[0] } == 0);
-    let t = js.state.get(&B).unwrap();
-    assert!(limbs_eq(&t.info.balance, &tb0) && t.info.nonce == tn0);
-    assert!(!t.is_created() && t.is_touched() == touched0 && !t.status.contains(AccountStatus::Cold));
-    core::mem::forget(js);
-}
-
-// ------------------------------------------------------------------------------------------------ (4) end to end
-/// `revert_post` END TO END through the REAL `journal_revert`, on one account: an outer `checkpoint()`, `touch(A)` +
-/// `inc_nonce(A)` on its level, an inner `checkpoint()` with a second `inc_nonce(A)` then `checkpoint_commit()`, a third
-/// `inc_nonce(A)` after it, then `checkpoint_revert(outer)`: nonce, balance, touched mark, depth, |journal|, |logs| are
-/// what they were when the checkpoint was taken.
-#[kani::proof]
-#[kani::unwind(5)]
-#[kani::stub(std::collections::hash_map::RandomState::new, fixed_random_state)]
-#[kani::stub(<bytes::Bytes as core::ops::Drop>::drop, bytes_drop_noop)]
-fn e2e_nonce_two_levels() {
-    let mut js = new_journaled_state(SpecId::CANCUN);
-    let touched0: bool = kani::any();
-    let acc = plain_account(touched0, false);
-    let (b0, n0) = (acc.info.balance, acc.info.nonce);
-    kani::assume(n0 < u64::MAX - 3);
-    put(&mut js, A, acc);
-    js.log(log_of(1));
-    let (d0, j0, l0) = (js.depth, js.journal.len(), js.logs.len());
-
-    let cp = js.checkpoint();
-    js.touch(&A);
-    let r1 = js.inc_nonce(A);
-    js.log(log_of(2));
-    let _inner = js.checkpoint();
-    let r2 = js.inc_nonce(A);
-    js.checkpoint_commit();
-    let r3 = js.inc_nonce(A);
-    assert!(r1 == Some(n0 + 1) && r2 == Some(n0 + 2) && r3 == Some(n0 + 3));
-    assert!(js.depth == d0 + 1 && js.journal.len() == j0 + 2 && js.logs.len() == l0 + 1);
-    kani::cover!(!touched0 && n0 == 5);
-
-    js.checkpoint_revert(cp);
-
-    assert!(js.depth == d0 && js.journal.len() == j0 && js.logs.len() == l0);
-    let a = js.state.get(&A).unwrap();
-    assert!(a.info.nonce == n0);
-    assert!(limbs_eq(&a.info.balance, &b0));
-    assert!(a.is_touched() == touched0);
-    core::mem::forget(js);
-}
